@@ -129,3 +129,43 @@ Fixpoint seq_run (c : command) (fuel : nat) (pending : nat) (sched : list Z) (s 
       end
     end
   end.
+
+(* ---------- CLI against a faulty API server (oracle = explicit answer script) ---------- *)
+(* answer to the GET of the target *)
+Inductive gout := GOk | GNotFound | GErr.
+(* answers to successive POSTs of the Command: created; persisted but answered 504
+   Timeout ("the operation may have been performed"); not persisted: 504 Timeout,
+   500 ServerTimeout, 500 InternalError, 409 AlreadyExists, 409 Conflict *)
+Inductive cout := COk | CTimeoutPersisted | CTimeout | CServerTimeout | C5xx | CAlreadyExists | CConflict.
+Global Instance gout_eq_dec : EqDecision gout. Proof. solve_decision. Defined.
+Global Instance cout_eq_dec : EqDecision cout. Proof. solve_decision. Defined.
+Global Instance command_eq_dec : EqDecision command. Proof. solve_decision. Defined.
+
+Definition persists (o : cout) : bool := match o with COk | CTimeoutPersisted => true | _ => false end.
+Definition succeeds (o : cout) : bool := match o with COk => true | _ => false end.
+
+(* one CLI invocation: verb, namespace argument, the object the GET returns (if it
+   does), the GET answer and the script of POST answers (afterwards: created) *)
+Record inv := mkInv { i_verb : Z; i_ns : Z; i_target : target; i_get : gout; i_script : list cout }.
+(* what it did: returned nil?, number of GETs and POSTs, Command objects it left behind *)
+Record ires := mkIres { r_ok : bool; r_gets : nat; r_posts : nat; r_new : list command }.
+
+(* CreateJobCommand / CreateQueueCommand / createQueueCommand: one GET, and only if it
+   succeeds ONE POST whose error is returned as is (no retry: the Command uses
+   GenerateName, a repeated POST would create a second object) *)
+Definition cli_invoke (i : inv) : ires :=
+  match i_get i with
+  | GOk =>
+      let o := hd COk (i_script i) in
+      mkIres (succeeds o) 1 1 (if persists o then cli_create (i_verb i) (i_ns i) (i_target i) else [])
+  | _ => mkIres false 1 0 []
+  end.
+
+(* the request a controller derives from a Command: (kind, namespace or -1 for the queue
+   controller, target name, action) *)
+Definition ctl_req (c : command) : Z * Z * Z * Z :=
+  (o_kind (c_target c), if o_kind (c_target c) =? 1 then c_ns c else -1, o_name (c_target c), c_action c).
+
+(* end to end: every Command left behind is executed once (C20_at_most_once per Command) *)
+Definition e2e_requests (invs : list inv) : list (Z * Z * Z * Z) :=
+  flat_map (fun i => map ctl_req (r_new (cli_invoke i))) invs.
